@@ -44,6 +44,138 @@ pub struct PropExtras {
 #[derive(Default)]
 pub struct Pre {
     pub state: Option<Vec<(&'static str, Vec<u8>)>>,
+    pub clone: Option<SimGroup>,
+    pub disk: Option<crate::seams::StoredView>,
+    pub what: String,
+}
+
+pub fn h1(group: &SimGroup) -> Result<Vec<(&'static str, Vec<u8>)>, MlsError> {
+    group.verif_state()
+}
+
+/// Component-wise comparison of two H1 states. `repo_updates` follows the rule of DESIGN §5: an entry
+/// that is new after the call is a cache fill and must equal the stored record; entries present before
+/// must be byte-identical.
+pub fn diff_states(
+    before: &[(&'static str, Vec<u8>)],
+    after: &[(&'static str, Vec<u8>)],
+    repo_after: Option<(&SimGroup, &crate::seams::SimGroupStorage, &[u8])>,
+) -> Vec<&'static str> {
+    let mut d = vec![];
+    for (name, b) in before {
+        let a = after.iter().find(|(n, _)| n == name).map(|(_, v)| v);
+        if a == Some(b) {
+            continue;
+        }
+        if *name == "repo_updates" {
+            if let Some((group, store, gid)) = repo_after {
+                if let Ok((_, upd_after)) = group.verif_repo_pending() {
+                    // decode `before` list is not needed: compare through ids
+                    let before_ids = decode_repo_list(b);
+                    let mut ok = true;
+                    for (id, bytes) in &upd_after {
+                        match before_ids.iter().find(|(i, _)| i == id) {
+                            Some((_, old)) => {
+                                if old != bytes {
+                                    ok = false;
+                                }
+                            }
+                            None => {
+                                let disk = store.view(gid).epochs.get(id).cloned();
+                                if disk.as_ref() != Some(bytes) {
+                                    ok = false;
+                                }
+                            }
+                        }
+                    }
+                    if before_ids.iter().any(|(i, _)| !upd_after.iter().any(|(j, _)| j == i)) {
+                        ok = false;
+                    }
+                    if ok {
+                        continue;
+                    }
+                }
+            }
+        }
+        d.push(*name);
+    }
+    d
+}
+
+/// decode the MLS encoding of Vec<(u64, Vec<u8>)> produced by the H1 hook
+fn decode_repo_list(b: &[u8]) -> Vec<(u64, Vec<u8>)> {
+    use mls_rs::mls_rs_codec::MlsDecode;
+    Vec::<(u64, Vec<u8>)>::mls_decode(&mut &b[..]).unwrap_or_default()
+}
+
+pub fn state_oracle_on(w: &World) -> bool {
+    w.cfg.oracle("state-unchanged")
+}
+
+fn capture(w: &World, p: usize, g: usize, what: &str) -> Pre {
+    let mut pre = Pre {
+        what: what.to_string(),
+        ..Default::default()
+    };
+    if let Some(group) = w.mem_ref(p, g).and_then(|m| m.group.as_ref()) {
+        pre.state = h1(group).ok();
+        pre.clone = Some(group.clone());
+    }
+    pre
+}
+
+/// after an operation returned Err: the member must be exactly as before
+pub fn check_unchanged(
+    w: &mut World,
+    p: usize,
+    g: usize,
+    pre: Pre,
+    kind: &str,
+    cls: &str,
+    detail_ctx: String,
+) -> VResult<()> {
+    let Some(before) = pre.state else { return Ok(()) };
+    let gid = w.groups[g].gid.clone();
+    let (diffs, after_ok) = {
+        let Some(group) = w.mem_ref(p, g).and_then(|m| m.group.as_ref()) else {
+            return Ok(());
+        };
+        match h1(group) {
+            Ok(after) => (
+                diff_states(&before, &after, Some((group, &w.parties[p].gstore, &gid))),
+                true,
+            ),
+            Err(_) => (vec!["<state not encodable>"], false),
+        }
+    };
+    let _ = after_ok;
+    w.stats.check("state-unchanged-after-err");
+    *w.stats
+        .probes
+        .entry(format!("rejected:{kind}:{cls}"))
+        .or_default() += 1;
+    if diffs.is_empty() {
+        return Ok(());
+    }
+    let signature = format!("changed:{}:{kind}:{cls}", diffs.join("+"));
+    let prop = w.cfg.property.clone();
+    if w.known.iter().any(|k| *k == signature) {
+        // a recorded finding: note it, undo the damage so it does not cascade, carry on
+        w.ext.known_hits.push(signature);
+        if let Some(c) = pre.clone {
+            w.mem(p, g).group = Some(c);
+        }
+        return Ok(());
+    }
+    Err(Violation::new(
+        &prop,
+        "state-unchanged-after-error",
+        signature,
+        format!(
+            "P{p}: {} returned Err({cls}) but the member's state changed in component(s) {:?} ({detail_ctx})",
+            pre.what, diffs
+        ),
+    ))
 }
 
 pub fn gce_list(v: u8) -> ExtensionList {
@@ -95,16 +227,218 @@ pub fn after_step(w: &mut World) -> VResult<()> {
     Ok(())
 }
 
-pub fn do_corrupt(_w: &mut World, _p: usize, _g: usize, _msg: u64, _m: &Mutation) -> VResult<bool> {
-    Ok(false)
+pub fn apply_mutation(orig: &[u8], m: &Mutation, other: Option<&[u8]>) -> Vec<u8> {
+    let mut b = orig.to_vec();
+    match m {
+        Mutation::Flip { pos, bit } => {
+            if !b.is_empty() {
+                let i = *pos as usize % b.len();
+                b[i] ^= 1 << (bit % 8);
+            }
+        }
+        Mutation::Trunc { len } => {
+            if !b.is_empty() {
+                b.truncate(*len as usize % b.len());
+            }
+        }
+        Mutation::Splice { at, .. } => {
+            if let Some(o) = other {
+                let n = b.len().min(o.len());
+                if n > 0 {
+                    let i = *at as usize % n;
+                    b.truncate(i);
+                    b.extend_from_slice(&o[i..]);
+                }
+            }
+        }
+        Mutation::Set { pos, bytes } => {
+            for (k, v) in bytes.iter().enumerate() {
+                let i = *pos as usize + k;
+                if i < b.len() {
+                    b[i] = *v;
+                }
+            }
+        }
+        Mutation::Insert { pos, bytes } => {
+            let i = (*pos as usize).min(b.len());
+            let tail = b.split_off(i);
+            b.extend_from_slice(bytes);
+            b.extend_from_slice(&tail);
+        }
+        Mutation::Resender { .. } | Mutation::None => {}
+    }
+    b
+}
+
+pub fn mutation_kind(m: &Mutation) -> &'static str {
+    match m {
+        Mutation::Flip { .. } => "N-FLIP",
+        Mutation::Trunc { .. } => "N-TRUNC",
+        Mutation::Splice { .. } => "N-SPLICE",
+        Mutation::Set { .. } => "N-SET",
+        Mutation::Insert { .. } => "N-LEN",
+        Mutation::Resender { .. } => "N-RESENDER",
+        Mutation::None => "none",
+    }
+}
+
+/// deliver a corrupted copy of message `msg` to p: must be rejected (C03), never panic, and leave p
+/// unchanged (C04)
+pub fn do_corrupt(w: &mut World, p: usize, g: usize, msg: u64, m: &Mutation) -> VResult<bool> {
+    if !w.live(p, g) {
+        return Ok(false);
+    }
+    let Some(orig) = w.msgs.get(&msg).cloned() else {
+        return Ok(false);
+    };
+    let other = match m {
+        Mutation::Splice { other, .. } => match w.msgs.get(other) {
+            Some(o) => Some(o.bytes.clone()),
+            None => return Ok(false),
+        },
+        _ => None,
+    };
+    let bytes = apply_mutation(&orig.bytes, m, other.as_deref());
+    if bytes == orig.bytes || other.as_deref() == Some(&bytes[..]) {
+        return Ok(false);
+    }
+    let prop = w.cfg.property.clone();
+    let epoch = w.epoch_of(p, g).unwrap();
+    let kind = mutation_kind(m);
+    w.stats.fault(kind);
+    let pre = before_op(w, p, g, "process_incoming_message(corrupted copy)")?;
+    let res = w.process(p, g, &bytes, "process_corrupted")?;
+    match res {
+        Ok(_) => Err(Violation::new(
+            &prop,
+            "modified-message-rejected",
+            format!("accepted-modified:{:?}:{kind}", orig.kind),
+            format!(
+                "P{p} (epoch {epoch}) accepted a modified copy ({m:?}) of {:?} message {msg} sent in epoch {} by P{}",
+                orig.kind, orig.epoch, orig.sender
+            ),
+        )),
+        Err(e) => {
+            let cls = err_class(&e);
+            w.ev(format!(
+                "corrupt P{p} g{g} e{epoch} msg={msg} ({:?} e{}) {kind} err {cls}",
+                orig.kind, orig.epoch
+            ));
+            w.stats.result(&format!("corrupt:err:{cls}"));
+            let k = format!(
+                "corrupt-{}{}",
+                match orig.kind {
+                    MsgKind::Commit => "commit",
+                    MsgKind::Proposal => "proposal",
+                    MsgKind::App => "app",
+                },
+                if orig.private { "-private" } else { "-public" }
+            );
+            after_rejected(w, p, g, msg, &k, &cls, pre)?;
+            Ok(true)
+        }
+    }
 }
 
 pub fn do_replay(_w: &mut World, _p: usize, _g: usize, _msg: u64) -> VResult<bool> {
     Ok(false)
 }
 
-pub fn do_special(_w: &mut World, _kind: &str, _a: u64, _b: u64, _c: u64) -> VResult<bool> {
-    Ok(false)
+pub fn do_special(w: &mut World, kind: &str, a: u64, b: u64, c: u64) -> VResult<bool> {
+    match kind {
+        "byz" => do_byz_commit(w, a as usize, 0, b as u8, c as u8),
+        _ => Ok(false),
+    }
+}
+
+/// B-MOD (DESIGN §4): member p, an honest library with the H4 commit modifiers switched on, signs a
+/// structurally invalid commit. Every receiver must reject it (C03), must not panic and must be
+/// unchanged afterwards (C04). The commit is built on a clone of p and never reaches the DS log.
+pub fn do_byz_commit(w: &mut World, p: usize, g: usize, code: u8, param: u8) -> VResult<bool> {
+    if !w.live(p, g) || w.parties[p].mems[g].pending.is_some() {
+        return Ok(false);
+    }
+    let prop = w.cfg.property.clone();
+    let epoch = w.epoch_of(p, g).unwrap();
+    let receivers: Vec<usize> = w
+        .live_members(g)
+        .into_iter()
+        .filter(|q| *q != p && w.epoch_of(*q, g) == Some(epoch))
+        .collect();
+    if receivers.is_empty() {
+        return Ok(false);
+    }
+    w.set_commit_options(
+        p,
+        &CommitSpec {
+            path_required: true,
+            ratchet_tree_ext: true,
+            single_welcome: true,
+            ..Default::default()
+        },
+    );
+    let now = w.now();
+    let mut clone = w.parties[p].mems[g].group.as_ref().unwrap().clone();
+    mls_rs::group::verif_hooks::modifiers::set(code, param);
+    let res = guarded(&prop, "commit(byzantine)", || {
+        clone.commit_builder().commit_time(now).build()
+    });
+    let fired = mls_rs::group::verif_hooks::modifiers::clear();
+    let res = res?;
+    w.stats.op("byz_commit");
+    let out = match res {
+        Err(e) => {
+            w.ev(format!("byz P{p} code={code} build err {}", err_class(&e)));
+            w.stats.result(&format!("byz:build-err:{}", err_class(&e)));
+            return Ok(true);
+        }
+        Ok(o) => o,
+    };
+    if fired == 0 {
+        w.ev(format!("byz P{p} code={code} modifier did not apply"));
+        return Ok(true);
+    }
+    w.stats.fault("B-MOD");
+    let bytes = out.commit_message.to_bytes().unwrap_or_default();
+    // 6/7/8 (ciphertext list length, damaged ciphertext) and 31 (path secret sealed to a wrong copath key)
+    // are only detectable by the receivers that decrypt at that node
+    let must_reject = !matches!(code, 6 | 7 | 8 | 31);
+    for q in receivers {
+        let pre = before_op(w, q, g, "process_incoming_message(byzantine commit)")?;
+        let keep = w.parties[q].mems[g].group.clone();
+        let r = w.process(q, g, &bytes, "process_byzantine_commit")?;
+        match r {
+            Ok(rm) => {
+                // a member that the commit removes cannot check the update path (it gets no secrets)
+                let removed = matches!(
+                    &rm,
+                    mls_rs::group::ReceivedMessage::Commit(d)
+                        if matches!(d.effect, mls_rs::group::CommitEffect::Removed { .. })
+                );
+                if must_reject && !removed {
+                    return Err(Violation::new(
+                        &prop,
+                        "invalid-commit-rejected",
+                        format!("accepted-structurally-invalid-commit:{code}"),
+                        format!(
+                            "P{q} accepted a commit from P{p} whose update path / leaf / tree was structurally invalid (modifier {code}, param {param})"
+                        ),
+                    ));
+                }
+                // a receiver that does not decrypt the damaged ciphertext cannot tell: put it back
+                w.mem(q, g).group = keep;
+                w.stats.probe(&format!("byz:{code}:undetectable-for-receiver"));
+                w.ev(format!("byz P{p} code={code} -> P{q} accepted (not detectable there)"));
+            }
+            Err(e) => {
+                let cls = err_class(&e);
+                w.ev(format!("byz P{p} code={code} param={param} -> P{q} err {cls}"));
+                w.stats.probe(&format!("byz:{code}:{cls}"));
+                after_rejected(w, q, g, u64::MAX, &format!("byz-commit-{code}"), &cls, pre)?;
+            }
+        }
+    }
+    Ok(true)
 }
 
 pub fn commit_extras(w: &mut World, _p: usize, g: usize, spec: &CommitSpec) -> VResult<CommitExtras> {
@@ -126,8 +460,14 @@ pub fn proposal_extras(w: &mut World, _p: usize, g: usize, spec: &PropSpec) -> V
     Ok(x)
 }
 
-pub fn before_op(_w: &mut World, _p: usize, _g: usize, _what: &str) -> VResult<Pre> {
-    Ok(Pre::default())
+pub fn before_op(w: &mut World, p: usize, g: usize, what: &str) -> VResult<Pre> {
+    if state_oracle_on(w) || w.cfg.oracle("pending-model") || w.cfg.oracle("accepted-state") {
+        return Ok(capture(w, p, g, what));
+    }
+    Ok(Pre {
+        what: what.to_string(),
+        ..Default::default()
+    })
 }
 
 pub fn before_join(_w: &mut World, _p: usize, _g: usize) -> VResult<Pre> {
@@ -135,14 +475,17 @@ pub fn before_join(_w: &mut World, _p: usize, _g: usize) -> VResult<Pre> {
 }
 
 pub fn after_failed_op(
-    _w: &mut World,
-    _p: usize,
-    _g: usize,
-    _what: &str,
-    _cls: &str,
-    _pre: Pre,
+    w: &mut World,
+    p: usize,
+    g: usize,
+    what: &str,
+    cls: &str,
+    pre: Pre,
     _spec: Option<&CommitSpec>,
 ) -> VResult<()> {
+    if state_oracle_on(w) {
+        check_unchanged(w, p, g, pre, what, cls, "a commit / proposal / send the member failed to build".into())?;
+    }
     Ok(())
 }
 
@@ -302,14 +645,24 @@ pub fn after_reinit(_w: &mut World, _p: usize, _g: usize, _cid: u64) -> VResult<
 }
 
 pub fn after_rejected(
-    _w: &mut World,
-    _p: usize,
-    _g: usize,
-    _id: u64,
-    _kind: &str,
-    _cls: &str,
-    _pre: Pre,
+    w: &mut World,
+    p: usize,
+    g: usize,
+    id: u64,
+    kind: &str,
+    cls: &str,
+    pre: Pre,
 ) -> VResult<()> {
+    if state_oracle_on(w) {
+        let ctx = match w.msgs.get(&id) {
+            Some(m) => format!(
+                "message {id}: {:?} sent in epoch {} by P{}, private={}",
+                m.kind, m.epoch, m.sender, m.private
+            ),
+            None => format!("message {id}"),
+        };
+        check_unchanged(w, p, g, pre, kind, cls, ctx)?;
+    }
     Ok(())
 }
 
